@@ -381,6 +381,10 @@ class Engine:
         return [Outcome('normal', st)]
 
     def stmt_Import(self, s, st):
+        if getattr(self.ctx, 'imports_may_fail', False):
+            # runtime contract: during interpreter finalisation an import statement may raise ImportError
+            s2 = st.fork()
+            self.raise_(s2, self.new_exc(s2, 'ImportError'))
         for a in s.names:
             st.env[(a.asname or a.name).split('.')[0]] = ModuleV(a.name if a.asname else a.name.split('.')[0])
         return [Outcome('normal', st)]
@@ -1039,6 +1043,9 @@ class Engine:
             return BuiltinV(name)
         if name == 'deepcopy':
             return BuiltinV('copy.deepcopy')
+        imp = getattr(self.src, 'module_imports', {}).get(self.mod, {}).get(name)
+        if imp is not None and imp[0] == 'module':
+            return ModuleV(imp[1])
         if name == 'Path':
             return ClassV('Path')
         return None
@@ -1930,6 +1937,9 @@ class Engine:
 
     def bi_next(self, args, kwargs, st, node):
         (it,) = args
+        h = self.ctx_hook('next_hook', st, it)
+        if h is not None:
+            return h
         if isinstance(it, StreamV):
             raise Unsupported('next() on a stream that was not wrapped by iter()/list of iterators')
         if not isinstance(it, IterV):
@@ -2247,6 +2257,9 @@ class Engine:
                 return None
             if isinstance(n, ast.Constant) and isinstance(n.value, int):
                 return n.value
+            if isinstance(n, ast.UnaryOp) and isinstance(n.op, ast.USub) and isinstance(n.operand, ast.Constant) \
+                    and isinstance(n.operand.value, int):
+                return -n.operand.value
             raise Unsupported('non-constant slice bound')
         return [(st, PySliceV(const(node.lower), const(node.upper), const(node.step)))]
 
@@ -2293,6 +2306,8 @@ class Engine:
             return self.seq_index(st, recv.m, idx.t, recv.at)
         if isinstance(recv, ListV) and isinstance(idx, IntV):
             return self.seq_index(st, z3.Length(recv.seq), idx.t, lambda p: ObjV(recv.seq[p]))
+        if isinstance(recv, (OpaqueStrV, StrV)) and isinstance(idx, PySliceV):
+            return [(st, OpaqueStrV())]
         if isinstance(recv, TupleV) and isinstance(idx, PySliceV):
             return [(st, TupleV(recv.items[slice(idx.lo, idx.hi, idx.step)], recv.is_list))]
         if isinstance(recv, TupleV) and isinstance(idx, IntV) and z3.is_int_value(z3.simplify(idx.t)):
@@ -2367,6 +2382,9 @@ class Engine:
         value(j) under n(j) and raising outcomes e_r(j) under r(j) that partition: result
           * all normal:   assume forall j<m. n(j)        value = SymSeq(m, j, value(j))
           * first raise:  fresh j0<m, r(j0), forall j<j0. n(j)   raises e(j0)."""
+        h = self.ctx_hook('comprehension_hook', st, node)
+        if h is not None:
+            return h
         if len(node.generators) != 1:
             raise Unsupported('nested comprehension')
         g = node.generators[0]
